@@ -233,10 +233,19 @@ def reeval(chk, prog, other, pred, as_rule, floor_name=None, floor=0, _cache={})
     pred(instance) selects; the instance key keeps the owning rule so that a finding is identified the same way everywhere."""
     import importlib
     ck = (id(prog), other, chk.tier)
+    active = _cache.setdefault("__active__", [])
+    if not active:
+        active.append(chk.pid)
+    if other in active:
+        return []                   # mutual dependence (C03 <-> C04): the rules of `other` are being evaluated further up this chain
     if ck not in _cache:
         mod = importlib.import_module("sa.rules." + other)
         sub = type(chk)(other, chk.tier)
-        mod.run(sub, prog)
+        active.append(other)
+        try:
+            mod.run(sub, prog)
+        finally:
+            active.pop()
         _cache[ck] = sub
     sub = _cache[ck]
     r = [i for i in sub.instances if pred(i)]
